@@ -86,7 +86,7 @@ def gen_instruction(rnd, tm):
         n = r["m"]["n"]
         nd = len(n)
         if op == "diff":
-            return (op, i, 0, [rnd.randint(1, nd), rnd.choice([1, 2])])
+            return (op, i, 0, [rnd.randint(1, nd), rnd.choice([1, 2]), rnd.choice([1, 1, 0])])   # third: restrict2valid
         if op in ("grad",):
             if r["nv"] != 1:
                 continue
